@@ -1,6 +1,7 @@
 package types
 
 import (
+	clienttypes "github.com/teleport-network/teleport/x/xibc/core/client/types"
 	"github.com/teleport-network/teleport/x/xibc/exported"
 
 	sdk "github.com/cosmos/cosmos-sdk/types"
@@ -13,8 +14,10 @@ func (h Header) ClientType() string {
 	return exported.TSS
 }
 
+// GetHeight returns the zero height: a TSS client has no height (see ClientState.GetLatestHeight).
+// It must not be nil, the client keeper uses it for the update event.
 func (h Header) GetHeight() exported.Height {
-	return nil
+	return clienttypes.Height{}
 }
 
 func (h Header) ValidateBasic() error {
